@@ -115,6 +115,36 @@ pub fn run(args: &Args) {
                 inputs.push(("shape".into(), format!("TYPE T\nB AS INTEGER\nEND TYPE\nDIM A(3) AS T\nIF 1 THEN {}{}\n", head, tail)));
             }
         }
+        // numeric literals of every length around the powers of two and ten, with every suffix
+        {
+            let mut nums: Vec<String> = vec![];
+            for k in 0..70u32 {
+                let p = 1u128 << k;
+                for v in [p - 1, p, p + 1] {
+                    nums.push(v.to_string());
+                }
+            }
+            let mut t = 1u128;
+            for _ in 0..30 {
+                for v in [t - 1, t, t + 1, t * 9 / 2] {
+                    nums.push(v.to_string());
+                }
+                t *= 10;
+            }
+            for n in ["4294967295", "4294967296", "9999999999", "10000000000", "2147483648", "32768", "0000000001", "00004294967296", "1.5", ".5", "5.", "1E5", "1D5", "1E40", "1D400", "1E-50", "123456789012345678901234567890", "0.00000000000000000001"] {
+                nums.push(n.to_string());
+            }
+            for n in nums {
+                for sfx in ["", "%", "&", "!", "#"] {
+                    if sfx.is_empty() || n.len() < 12 {
+                        inputs.push(("shape".into(), format!("X# = {}{}\n", n, sfx)));
+                        inputs.push(("shape".into(), format!("PRINT -{}{}\n", n, sfx)));
+                    }
+                }
+                inputs.push(("shape".into(), format!("X = &H{}\n", n)));
+                inputs.push(("shape".into(), format!("X = &O{}\n", n)));
+            }
+        }
         let letters = ["A", "Z", "a", "z", "M", "m", "B"];
         for kw in ["DEFINT", "DEFLNG", "DEFSNG", "DEFDBL", "DEFSTR"] {
             for x in letters {
